@@ -296,5 +296,7 @@ def _in_child(thunk):
 
 def encoded(part, *objs):
     for o in objs:
+        if o is None:          # a private helper that this version of the code does not have: nothing to report
+            continue
         n, h = fn_sig(o)
         part.functions[n] = h
